@@ -1966,7 +1966,53 @@ func (fv *funcVerifier) lockSpecOp(st *State, mu ast.Expr, acquire bool, call *a
 			fv.lockSnapBy = map[string]*State{}
 		}
 		fv.lockSnapBy[n.Obj().Name()+"."+sel.Sel.Name+"@"+owner.S] = fv.lockSnap
+		if fv.lockReadBy == nil {
+			fv.lockReadBy = map[string]bool{}
+		}
+		isRead := false
+		if cs, ok := ast.Unparen(call.Fun).(*ast.SelectorExpr); ok && cs.Sel.Name == "RLock" {
+			isRead = true
+		}
+		fv.lockReadBy[n.Obj().Name()+"."+sel.Sel.Name+"@"+owner.S] = isRead
 		return true
+	}
+	// a read lock protects readers only: a section entered with RLock must leave every field the mutex
+	// owns, and the contents of the maps / slices they refer to, as it found them (two such sections
+	// can run at the same time, so a write is a data race on state the monitor model treats as exclusive)
+	if snap := fv.lockSnapBy[n.Obj().Name()+"."+sel.Sel.Name+"@"+owner.S]; snap != nil && fv.lockReadBy[n.Obj().Name()+"."+sel.Sel.Name+"@"+owner.S] {
+		for _, fname := range owned {
+			if _, _, ok := fv.ghostFieldKey(ot, fname); ok {
+				continue
+			}
+			_, f := si.field(fname)
+			if f == nil {
+				continue
+			}
+			cur := fv.fieldLval(st, owner, n, f).load()
+			was := fv.fieldLval(snap, owner, n, f).load()
+			var same []smt.Term
+			if cur.S != was.S {
+				same = append(same, smt.Eq(cur, was))
+			}
+			var keys []string
+			var ref smt.Term
+			switch u := f.typ.Underlying().(type) {
+			case *types.Map:
+				dom, val, ln := fv.mapKeys(u)
+				keys, ref = []string{dom, val, ln}, was
+			case *types.Slice:
+				keys, ref = []string{fv.memKey(u.Elem())}, slArr(was)
+			}
+			for _, k := range keys {
+				hn, hw := fv.heapGet(st, k), fv.heapGet(snap, k)
+				if hn.S != hw.S {
+					same = append(same, smt.Eq(smt.Select(hn, ref), smt.Select(hw, ref)))
+				}
+			}
+			if len(same) > 0 {
+				fv.assert(st, "frame", "readlock:"+n.Obj().Name()+"."+fname+" written in a section that holds only the read lock", call.Pos(), smt.And(same...))
+			}
+		}
 	}
 	// per-section frame: an owned field the modifies clause does not name has, at the release, the
 	// value it had at the acquisition (the exit frame cannot see owned fields: other threads may
